@@ -301,6 +301,36 @@ Theorem C20_counter_shift_semantic :
 Proof. exact counter_shift_semantic. Qed.
 Print Assumptions C20_counter_shift_semantic.
 
+(* ---- the two name generators share one name space (finding) ---- *)
+From Polar Require Import HistoryCollide.
+
+(* MultiAssignTransformer's version names are counter names: "version names never equal counter
+   names" is false ... *)
+Theorem C20_multiassign_collision_refuted :
+  ~ (forall var i tag k, In tag polar_tags -> ma_name var i <> gen_name tag k).
+Proof. exact multiassign_collision_refuted. Qed.
+Print Assumptions C20_multiassign_collision_refuted.
+
+(* ... precisely for tag-named variables, at one value of the counter ... *)
+Theorem C20_multiassign_collision_iff :
+  forall var i tag k, ends_nondigit var = true -> ends_nondigit tag = true ->
+    (ma_name var i = gen_name tag k <-> var = tag /\ i = k).
+Proof. exact multiassign_collision_iff. Qed.
+Print Assumptions C20_multiassign_collision_iff.
+
+(* ... so whether it happens depends on how many names earlier analyses consumed *)
+Theorem C20_multiassign_collision_depends_on_history :
+  forall var i j k0 k0', ends_nondigit var = true ->
+    ma_name var i = gen_name var (k0 + j) -> ma_name var i = gen_name var (k0' + j) -> k0 = k0'.
+Proof. exact multiassign_collision_depends_on_history. Qed.
+Print Assumptions C20_multiassign_collision_depends_on_history.
+
+(* the proposed spelling "_<var>_<i>" is never a counter name of one of Polar's tags *)
+Theorem C20_multiassign_fixed_never_collides :
+  forall var i tag k, In tag polar_tags -> ma_name_fixed var i <> gen_name tag k.
+Proof. exact multiassign_fixed_never_collides_polar. Qed.
+Print Assumptions C20_multiassign_fixed_never_collides.
+
 (* ================= non-vacuity (tests by vm_compute, not theorems) ================= *)
 
 Definition ex_A : list (list Qc_cring) :=
@@ -343,6 +373,12 @@ Example C20_nonvacuous_names :
   /\ names_from ["t"; "old"; "u"]%string 10 = map (cshift 10) ["_t0"; "_old1"; "_u2"]%string
   /\ cshift 10 "x"%string = "x"%string /\ cshift 3 "_t007"%string = "_t007"%string
   /\ forallb digit_free polar_tags = true.
+Proof. vm_compute. repeat split. Qed.
+
+Example C20_nonvacuous_collision :
+  ma_name "t" 1 = gen_name "t" 1 /\ ma_name "t" 1 = "_t1"%string /\ ma_name_fixed "t" 1 = "_t_1"%string
+  /\ nth 1 (names_from ["t"; "t"]%string 0) ""%string = ma_name "t" 1
+  /\ In (ma_name "t" 1) (names_from ["t"; "t"]%string 2) = In "_t1"%string ["_t2"; "_t3"]%string.
 Proof. vm_compute. repeat split. Qed.
 
 Example C20_nonvacuous_or_chain :
